@@ -23,7 +23,7 @@ import (
 func init() {
 	vf.Register(&vf.Prop{
 		ID: "C09", Level: "model_checking",
-		Rule: "explicit exploration of ALL operation histories up to length L over a package with two files: SetCurFile(a|b); reference to a/fmt, b/fmt (equal base names) or c/util from a function body or from a type expression in a signature; reference under a parameter / local variable named like the import; reference built and discarded (ResetStmt); ForceImport; " +
+		Rule: "explicit exploration of ALL operation histories up to length L over a package with two files: SetCurFile(a|b); reference to a/fmt, b/fmt (equal base names) or c/util from a function body, from a type expression in a signature, or from a new spec appended to the file's long-lived `type (...)` / `var (...)` block (so a write can fall between two extensions of one declaration); reference under a parameter / local variable named like the import; reference built and discarded (ResetStmt); ForceImport; " +
 			"package-level declarations (var fmt, const fmt, func fmt1, type util) before or after the imports; the any-member sugar (generated _autoGo_N name) with a user declaration _autoGo_1; Write(a|b) as an ordinary operation (it marks imports used and fixes names). After every history all files are written twice. " +
 			"Oracle against a reference model of the history (set of referenced/forced paths per file, intended path of every planted reference): files parse and the package type-checks; import specs == referenced ∪ forced, no duplicates; local import names pairwise distinct and distinct from every package-level identifier; " +
 			"every planted reference resolves (Info.Uses of the qualifier) to the intended path; second write is byte-identical. state = canonical model state (per-file reference sets, declared names, dirty/written flags); non-trivial = histories with >=2 import paths or a colliding declaration",
@@ -65,12 +65,14 @@ func alphabet(full bool) []op {
 		{"refunder", "a/fmt", "param"}, {"refunder", "a/fmt", "local"},
 		{"discard", "a/fmt", ""}, {"discard", "c/util", ""},
 		{"force", "a/fmt", ""},
+		{"ref", "a/fmt", "typeblock"}, {"ref", "c/util", "typeblock"}, // two packages, one block: the second extension may follow a write
 		{"declare", "var", "fmt"}, {"declare", "func", "fmt1"}, {"declare", "type", "util"}, {"declare", "const", "fmt"},
 		{"write", "a.go", ""}, {"write", "b.go", ""},
 	}
 	if full {
 		a = append(a,
 			op{"ref", "a/fmt", "pkgvar"}, op{"ref", "b/fmt", "pkgvar"},
+			op{"ref", "b/fmt", "typeblock"}, op{"ref", "c/util", "varblock"}, op{"ref", "a/fmt", "varblock"}, op{"ref", "b/fmt", "varblock"},
 			op{"refunder", "b/fmt", "param"}, op{"refunder", "c/util", "local"}, op{"refunder", "a/fmt", "result"}, op{"refunder", "a/fmt", "range"},
 			op{"discard", "b/fmt", ""}, op{"force", "c/util", ""}, op{"force", "b/fmt", ""},
 			op{"declare", "var", "fmt1"}, op{"declare", "func", "fmt"}, op{"declare", "type", "fmt"}, op{"declare", "var", "util1"}, op{"declare", "var", "_autoGo_1"},
@@ -97,6 +99,10 @@ type world struct {
 	b    *gx.Build
 	m    *model
 	refs map[string]gogen.PkgRef
+	// declaration blocks that stay open for the life of the package, one per file: a `type ( ... )` and a
+	// `var ( ... )` group that later operations extend (a write may happen between two extensions)
+	typeBlocks map[string]*gogen.TypeDefs
+	varBlocks  map[string]*gogen.VarDefs
 }
 
 func newWorld(imp *fixture.Importer) *world {
@@ -143,6 +149,30 @@ func (w *world) apply(o op) (ok bool, msg string) {
 			case "pkgvar":
 				name := "r" + strconv.Itoa(m.n)
 				pkg.NewVarStart(token.NoPos, nil, name).Val(ref.Ref("V")).EndInit(1)
+				m.sites = append(m.sites, site{m.cur, name, o.A})
+			case "typeblock":
+				name := "Tb" + strconv.Itoa(m.n)
+				if w.typeBlocks == nil {
+					w.typeBlocks = map[string]*gogen.TypeDefs{}
+				}
+				tb := w.typeBlocks[m.cur]
+				if tb == nil {
+					tb = pkg.NewTypeDefs()
+					w.typeBlocks[m.cur] = tb
+				}
+				tb.NewType(name).InitType(pkg, ref.Ref("T").Type())
+				m.sites = append(m.sites, site{m.cur, name, o.A})
+			case "varblock":
+				name := "vb" + strconv.Itoa(m.n)
+				if w.varBlocks == nil {
+					w.varBlocks = map[string]*gogen.VarDefs{}
+				}
+				vb := w.varBlocks[m.cur]
+				if vb == nil {
+					vb = pkg.NewVarDefs(pkg.Types.Scope())
+					w.varBlocks[m.cur] = vb
+				}
+				vb.New(token.NoPos, ref.Ref("T").Type(), name)
 				m.sites = append(m.sites, site{m.cur, name, o.A})
 			}
 			m.refs[m.cur][o.A] = true
@@ -307,6 +337,9 @@ func (w *world) check(imp *fixture.Importer) []verdict {
 					for _, sp := range v.Specs {
 						if vs2, ok := sp.(*ast.ValueSpec); ok && vs2.Names[0].Name == s.decl {
 							decl = vs2
+						}
+						if ts, ok := sp.(*ast.TypeSpec); ok && ts.Name.Name == s.decl {
+							decl = ts
 						}
 					}
 				}
